@@ -1398,9 +1398,11 @@ impl HashColumn {
 					table.validate_plan(record.index, log)?;
 				} else {
 					if record.table.index_bits() < tables.index.id.index_bits() {
-						// Insertion into a previously dropped index.
-						log::warn!( target: "parity-db", "Index {} is too old. Current is {}", record.table, tables.index.id);
-						return Err(Error::Corruption("Unexpected log index id".to_string()))
+						// Change of a previously dropped index: the record was written before the drop
+						// was enacted and is being replayed. `enact_plan` skips it as well.
+						log::debug!( target: "parity-db", "Index {} is too old. Current is {}. Skipped", record.table, tables.index.id);
+						IndexTable::skip_plan(log)?;
+						return Ok(())
 					}
 					// Re-launch previously started reindex
 					// TODO: add explicit log records for reindexing events.
@@ -1429,9 +1431,10 @@ impl HashColumn {
 					table.validate_plan(record.index, log)?;
 				} else {
 					if record.table.index_bits() < tables.get_ref_count().id.index_bits() {
-						// Insertion into a previously dropped ref count.
-						log::warn!( target: "parity-db", "Ref count {} is too old. Current is {}", record.table, tables.get_ref_count().id);
-						return Err(Error::Corruption("Unexpected log ref count id".to_string()))
+						// Change of a previously dropped ref count table, see above.
+						log::debug!( target: "parity-db", "Ref count {} is too old. Current is {}. Skipped", record.table, tables.get_ref_count().id);
+						RefCountTable::skip_plan(log)?;
+						return Ok(())
 					}
 					// Re-launch previously started reindex
 					// TODO: add explicit log records for reindexing events.
